@@ -413,6 +413,37 @@ fn check_tickets_caps_filters() -> (Bad, u64) {
             }
         }
     }
+    // filter values through their textual form (bytes incl. whitespace, colon, non-UTF-8)
+    {
+        const TB: [u8; 10] = [0x61, 0x62, 0x3a, 0xff, 0x00, 0x20, 0x0a, 0x09, 0xc3, 0xa9];
+        let mut values: Vec<Vec<u8>> = vec![vec![]];
+        for a in TB {
+            values.push(vec![a]);
+            for b in TB {
+                values.push(vec![a, b]);
+                values.push(vec![a, 0x61, b]);
+            }
+        }
+        for v in values {
+            for exact in [true, false] {
+                n += 1;
+                let f = if exact {
+                    FilterKind::Exact(bytes::Bytes::from(v.clone()))
+                } else {
+                    FilterKind::Prefix(bytes::Bytes::from(v.clone()))
+                };
+                match catch(|| FilterKind::from_str(&f.to_string())) {
+                    Err(p) => bad.push(("no_panic", json!({"decoder": "filter"}), format!("{f:?}: {p}"))),
+                    Ok(Ok(back)) if back == f => {}
+                    Ok(other) => bad.push((
+                        "filter_value_roundtrip",
+                        json!({"utf8": std::str::from_utf8(&v).is_ok()}),
+                        format!("{f:?} -> {:?} -> {:?}", f.to_string(), other.map_err(|e| e.to_string())),
+                    )),
+                }
+            }
+        }
+    }
     // filter strings: single-character corruptions and deletions of valid forms
     for base in ["prefix:utf8:ab", "exact:hex:00ff", "exact:utf8:", "prefix:hex:", "exact:utf8:a:b"] {
         let chars: Vec<char> = base.chars().collect();
